@@ -339,7 +339,7 @@ def impl_sig(case):
         return [[0]] * len(case["probes"])
     except Exception as e:  # noqa: BLE001
         return [[f"EXC {type(e).__name__}"]] * len(case["probes"])
-    return [_run_handler_obs(h, 0, [["c", p]], [{}])[0] for p in case["probes"]]
+    return [_run_handler_obs(h, 0, [["c", p[8:]]], [{}])[0] for p in case["probes"]]
 
 
 # ----------------------------------------------------------------- generators
@@ -421,14 +421,14 @@ def gen_l1(tier, r, table):
                 pairs = [(a, None) for a in pool]
             else:
                 pairs = list(itertools.product(pool, pool)) if thorough else \
-                    [(a, b) for a in pool for b in pool if (a in WORDS[:8] and b in WORDS[:8]) or r.random() < 0.25]
+                    [(a, b) for a in pool for b in pool if (a in WORDS[:8] and b in WORDS[:8]) or r.random() < 0.08]
                 pairs += [(a, a) for a in pool]
             for k, (a, b) in enumerate(pairs):
                 m = msgs[k % len(msgs)]
                 items = [("w", a)] + ([] if unary else [("w", b)]) + ([("b", m)] if m is not None else [])
                 cases.append(mk_case(d, sel, abi_encode(items)))
             # symbolic operands under valuations (x alone, x and y, x against a constant)
-            nv = 60 if thorough else 24
+            nv = 60 if thorough else 14
             for m in (msgs if thorough else msgs[:2]):
                 extra = [("b", m)] if m is not None else []
                 if unary:
@@ -558,6 +558,211 @@ def gen_sigs(tier, r, table_sigs):
     return out
 
 
+# ----------------------------------------------------------------- L2: SEVM.run with the call at depth 0..3
+
+ASSUME_SEL = 0x4C63E562
+
+
+def _fwd_code(target):
+    # CALLDATASIZE PUSH0 PUSH0 CALLDATACOPY; CALL(gas, target, 0, 0, CALLDATASIZE, 0, 0); POP; STOP
+    return bytes([0x36, 0x5F, 0x5F, 0x37, 0x5F, 0x5F, 0x36, 0x5F, 0x5F, 0x73]) + target.to_bytes(20, "big") + bytes([0x5A, 0xF1, 0x50, 0x00])
+
+
+def _root_code(target):
+    # copy calldata; CALL(hevm, mem[0:36]) (the vm.assume prefix); CALL(target, mem[36:]); STOP
+    return (bytes([0x36, 0x5F, 0x5F, 0x37, 0x5F, 0x5F, 0x60, 0x24, 0x5F, 0x5F, 0x73]) + HEVM.to_bytes(20, "big") + bytes([0x5A, 0xF1, 0x50])
+            + bytes([0x5F, 0x5F, 0x60, 0x24, 0x36, 0x03, 0x60, 0x24, 0x5F, 0x73]) + target.to_bytes(20, "big") + bytes([0x5A, 0xF1, 0x50, 0x00]))
+
+
+def _assume_word(spec, syms):
+    import z3
+
+    if spec[0] == "const":
+        return w32(spec[1])
+    x = syms.setdefault(spec[1], z3.BitVec(spec[1], 256))
+    if spec[0] == "var":
+        return x
+    one, zero = z3.BitVecVal(1, 256), z3.BitVecVal(0, 256)
+    if spec[0] == "ult":
+        return z3.If(z3.ULT(x, z3.BitVecVal(spec[2], 256)), one, zero)
+    if spec[0] == "slt":
+        return z3.If(x < z3.BitVecVal(spec[2], 256), one, zero)
+    raise ValueError(spec)
+
+
+def assume_holds(spec, val):
+    if spec[0] == "const":
+        return spec[1] != 0
+    x = val[spec[1]]
+    if spec[0] == "var":
+        return x != 0
+    if spec[0] == "ult":
+        return x < spec[2]
+    return _signed(x) < _signed(spec[2])
+
+
+def impl_l2(case):
+    """returns {"paths": [...per yielded path: flag, stuck, error, depth, holds-per-valuation], "checks": [...]} or {"exc": name}"""
+    import z3
+
+    from halmos.__main__ import is_global_fail_set, mk_block, mk_solver
+    from halmos.bytevec import ByteVec
+    from halmos.calldata import FunctionInfo
+    from halmos.cheatcodes import hevm_cheat_code
+    from halmos.config import default_config
+    from halmos.sevm import SEVM, CallContext, Contract, Exec, Message, Path, con_addr
+    from halmos.utils import EVM
+
+    depth = case["depth"]
+    syms = {}
+    parts = [ASSUME_SEL.to_bytes(4, "big"), _assume_word(case["assume"], syms), case["sel"].to_bytes(4, "big")]
+    for s in case["segs"]:
+        if s[0] == "c":
+            if s[1]:
+                parts.append(bytes.fromhex(s[1]))
+        else:
+            parts.append(syms.setdefault(s[1], z3.BitVec(s[1], 8 * s[2])))
+    data = ByteVec(parts)
+
+    args = default_config()
+    sevm = SEVM(args, FunctionInfo("T", "test", "test()", "f8a8fd6d"))
+    solver = mk_solver(args)
+    addrs = [0x1000 + i for i in range(depth + 1)]
+    code = {}
+    for i, a in enumerate(addrs):
+        tgt = addrs[i + 1] if i < depth else HEVM
+        code[con_addr(a)] = Contract(_root_code(tgt) if i == 0 else _fwd_code(tgt))
+    this = con_addr(addrs[0])
+    message = Message(target=this, caller=z3.BitVec("msg_sender", 160), origin=z3.BitVec("tx_origin", 160),
+                      value=z3.BitVecVal(0, 256), data=data, call_scheme=EVM.CALL)
+    ex0 = sevm.mk_exec(code=code, storage={a: {} for a in code}, transient_storage={a: {} for a in code},
+                       balance=z3.Array("balance_0", z3.BitVecSort(160), z3.BitVecSort(256)), block=mk_block(),
+                       context=CallContext(message), pgm=code[this], path=Path(solver))
+
+    # record the solver answers given inside hevm_cheat_code.handle (second call = the cheatcode under test)
+    checks = []
+    state = {"in": 0, "n": 0}
+    orig_check, orig_handle = Exec.check, hevm_cheat_code.__dict__["handle"]
+
+    def check(self, cond):
+        r = orig_check(self, cond)
+        if state["in"]:
+            checks.append((state["n"], str(r)))
+        return r
+
+    def handle(sevm_, ex, arg, stack):
+        state["in"] += 1
+        state["n"] += 1
+        try:
+            return orig_handle.__func__(sevm_, ex, arg, stack)
+        finally:
+            state["in"] -= 1
+
+    Exec.check = check
+    hevm_cheat_code.handle = staticmethod(handle)
+    out = {"paths": [], "checks": None}
+    try:
+        for e in sevm.run(ex0):
+            conds = list(e.path.conditions)
+            holds = []
+            for val in case["vals"]:
+                ok = True
+                for c in conds:
+                    v = _eval_bool(c, syms, {n: val.get(n, 0) for n in syms})
+                    if v is not True:
+                        ok = v if v is False else str(v)
+                        break
+                holds.append(ok)
+            err = e.context.output.error
+            out["paths"].append({"flag": bool(is_global_fail_set(e.context)), "stuck": bool(e.context.is_stuck()),
+                                 "error": type(err).__name__ if err is not None else None, "depth": e.context.depth,
+                                 "nconds": len(conds), "holds": holds})
+    except Exception as e:  # noqa: BLE001
+        out = {"exc": type(e).__name__}
+    finally:
+        Exec.check = orig_check
+        hevm_cheat_code.handle = orig_handle
+    out["checks"] = [r for n, r in checks if n == 2]
+    return out
+
+
+def gen_l2(tier, r, table):
+    cases = []
+    by_sig = {render(d): (sel, d) for sel, d in table.items()}
+    thorough = tier != "quick"
+    pool = WORDS[:8] + [5, 7, 10, 11]
+
+    def add(depth, assume, sig, data, syms=(), vals=None, mode="assert"):
+        sel, d = by_sig[sig] if sig in by_sig else (ASSUME_SEL, None)
+        cases.append({"kind": "l2", "mode": mode, "depth": depth, "assume": assume, "sig": sig, "sel": sel,
+                      "descr": list(d) if d else None, "segs": segs_of(data, syms), "vals": vals or [{}]})
+
+    T = ["const", 1]
+    for depth in range(4):
+        xy = [{"x": r.choice(pool), "y": r.choice(pool)} for _ in range(24 if thorough else 10)] + [{"x": v, "y": v} for v in pool[:4]]
+        for sig in ["assertLt(uint256,uint256)", "assertLt(int256,int256)", "assertGe(int256,int256,string)", "assertLe(uint256,uint256)",
+                    "assertEq(uint256,uint256)", "assertNotEq(address,address)", "assertEq(bytes32,bytes32,string)"]:
+            msg = [("b", b"why")] if sig.endswith(",string)") else []
+            add(depth, T, sig, abi_encode([("w", 0), ("w", 0)] + msg), [(0, 32, "x"), (32, 32, "y")], xy)
+            conc = [(3, 3), (3, W - 4), (W - 4, 3)]
+            for ci, (a_, b_) in enumerate(conc):
+                if thorough or ci == (depth + len(sig)) % 3:
+                    add(depth, T, sig, abi_encode([("w", a_), ("w", b_)] + msg))
+        xs = [{"x": v} for v in pool]
+        # prior path from vm.assume, then an assert that it implies / contradicts / splits
+        add(depth, ["ult", "x", 5], "assertLt(uint256,uint256)", abi_encode([("w", 0), ("w", 10)]), [(0, 32, "x")], xs)
+        add(depth, ["ult", "x", 10], "assertLt(uint256,uint256)", abi_encode([("w", 0), ("w", 5)]), [(0, 32, "x")], xs)
+        add(depth, ["ult", "x", 5], "assertGe(uint256,uint256)", abi_encode([("w", 0), ("w", 5)]), [(0, 32, "x")], xs)
+        add(depth, ["slt", "x", 0], "assertLt(int256,int256)", abi_encode([("w", 0), ("w", 0)]), [(0, 32, "x")], xs)
+        add(depth, ["slt", "x", 0], "assertLt(uint256,uint256)", abi_encode([("w", 0), ("w", 1 << 255)]), [(0, 32, "x")], xs)
+        add(depth, ["var", "x"], "assertTrue(bool)", abi_encode([("w", 0)]), [(0, 32, "x")], xs)
+        add(depth, ["var", "x"], "assertFalse(bool,string)", abi_encode([("w", 0), ("b", b"m")]), [(0, 32, "x")], xs)
+        add(depth, ["const", 0], "assertTrue(bool)", abi_encode([("w", 0)]))
+        add(depth, T, "assertGe(uint256,uint256)", abi_encode([("w", 0), ("w", 0)]), [(0, 32, "x")], xs)      # trivially true
+        add(depth, T, "assertEq(uint256,uint256)", abi_encode([("w", 0), ("w", 0)]), [(0, 32, "x"), (32, 32, "x")], xs)
+        add(depth, T, "assertTrue(bool)", abi_encode([("w", 0)]), [(0, 32, "x")], xs)
+        add(depth, T, "assertFalse(bool)", abi_encode([("w", 0)]), [(31, 1, "x")], [{"x": v % 256} for v in pool])
+        # bytes / arrays
+        a = bytes(r.randrange(256) for _ in range(33))
+        add(depth, T, "assertEq(bytes,bytes)", abi_encode([("b", a), ("b", a)]))
+        add(depth, T, "assertEq(bytes,bytes)", abi_encode([("b", a), ("b", a[:-1])]))
+        add(depth, T, "assertNotEq(string,string,string)", abi_encode([("b", a), ("b", a), ("b", b"m")]))
+        add(depth, T, "assertEq(string,string)", abi_encode([("b", b"\0" * 32), ("b", a[:32])]), [(64 + 32, 32, "x")],
+            [{"x": int.from_bytes(a[:32], "big")}, {"x": 0}, {"x": 1}])
+        add(depth, T, "assertEq(uint256[],uint256[])", abi_encode([("a", [1, 2]), ("a", [1, 2])]))
+        add(depth, T, "assertEq(uint256[],uint256[])", abi_encode([("a", [1, 2]), ("a", [1])]))
+        add(depth, T, "assertEq(int256[],int256[])", abi_encode([("a", [0, 2]), ("a", [1, 2])]), [(64 + 32, 32, "x")], xs)
+        add(depth, T, "assertNotEq(bool[],bool[])", abi_encode([("a", []), ("a", [])]))
+        # known defects, at depth
+        add(depth, T, "assertTrue(bool,string)", abi_encode([("w", 1), ("b", b"\xff")]))
+        add(depth, T, "assertEq(bytes[],bytes[])", abi_encode([("w", 64), ("w", 96), ("w", 0), ("w", 0)]))
+        # vm.assume itself placed at this depth
+        add(depth, T, "assume(bool)", abi_encode([("w", 0)]), [(0, 32, "x")], xs, mode="assume")
+        add(depth, ["ult", "x", 7], "assume(bool)", abi_encode([("w", 0)]), [(0, 32, "y")], xy, mode="assume")
+        add(depth, T, "assume(bool)", abi_encode([("w", 0)]), mode="assume")
+        add(depth, T, "assume(bool)", abi_encode([("w", 2)]), mode="assume")
+    # every bound selector once failing and once passing, at a random depth
+    for sel, d in table.items():
+        op, ty, arr, msg = d
+        if ty in ("string", "bytes") and arr:
+            continue
+        m = [("b", b"m")] if msg else []
+        if op in ("True", "False"):
+            items = [[("w", 1)], [("w", 0)]]
+        elif ty in ("string", "bytes"):
+            items = [[("b", b"ab"), ("b", b"ab")], [("b", b"ab"), ("b", b"ab\0")]]
+        elif arr:
+            items = [[("a", [1, 0]), ("a", [1, 0])], [("a", [1, 0]), ("a", [1])]]
+        else:
+            # (1, 0) and (0, 1): one of them violates each of Lt Gt Le Ge Eq; (1, 1) violates NotEq, Lt, Gt
+            items = [[("w", 1), ("w", 0)], [("w", 0), ("w", 1)], [("w", 1), ("w", 1)]]
+            if not thorough:
+                items = items[:2] if op in ("Lt", "Gt") else (items[1:] if op == "Ge" else [items[0], items[2]])
+        for it in items:
+            add(r.randrange(4), T, render(d), abi_encode(it + m))
+    return cases
+
+
 # ----------------------------------------------------------------- comparison helpers
 
 def is_huge(obs):
@@ -587,7 +792,105 @@ def known_or_fail(rep, what, case, sig):
     return False
 
 
+def check_l2(rep, bad, l2, impl2, res2):
+    """spec-vs-implementation per sampled input, model-vs-implementation on the outcome shape"""
+    enc = {"unsat": 0, "sat": 1, "unknown": 2}
+    for k, (c, im) in enumerate(zip(l2, impl2)):
+        d = tuple(c["descr"]) if c["descr"] else None
+        shown = {"l2": True, "mode": c["mode"], "depth": c["depth"], "assume": c["assume"], "sig": c["sig"], "sel": c["sel"], "segs": c["segs"]}
+        rep.count("l2_depth", c["depth"])
+        rep.count("l2_mode", c["mode"] + ("/symbolic" if any(s[0] == "s" for s in c["segs"]) else "/concrete"))
+        nontriv = False
+        if "exc" in im:
+            cd0 = c["sel"].to_bytes(4, "big") + concretize(c["segs"], c["vals"][0])
+            m = spec_msg(d, cd0) if d else None
+            if d and d[1] in ("string", "bytes") and d[2] and im["exc"] == "NotImplementedError":
+                bad("failing-input", f"{c['sig']} at call depth {c['depth']}: NotImplementedError escapes SEVM.run", shown, {"defect": "bytes-array-not-implemented"})
+            elif m is not None and not utf8_ok(m) and im["exc"] == "UnicodeDecodeError":
+                bad("failing-input", f"{c['sig']} at call depth {c['depth']}: UnicodeDecodeError escapes SEVM.run", shown, {"defect": "unicode-message"})
+            else:
+                bad("failing-input", f"{c['sig']} at call depth {c['depth']}: {im['exc']} escapes SEVM.run", shown, {"defect": "exception", "exc": im["exc"]})
+            rep.case({"l2": k, "sig": c["sig"], "depth": c["depth"]}, nontrivial=True)
+            continue
+        paths = im["paths"]
+        for p in paths:
+            if p["flag"] and (p["error"] != "FailCheatcode" or p["stuck"] or p["depth"] != c["depth"] + 1):
+                bad("broken-tie", f"L2 {c['sig']} depth {c['depth']}: a flagged path is not an un-finalized FailCheatcode state of the calling frame: {p}", shown)
+            if any(isinstance(h, str) for h in p["holds"]):
+                bad("broken-tie", f"L2 {c['sig']}: a path condition could not be evaluated: {p['holds']}", shown)
+        for j, val in enumerate(c["vals"]):
+            prior = assume_holds(c["assume"], val)
+            failed = any(p["flag"] and p["holds"][j] is True for p in paths)
+            normal = any((not p["flag"]) and p["error"] is None and not p["stuck"] and p["holds"][j] is True for p in paths)
+            other = any((not p["flag"]) and (p["error"] is not None or p["stuck"]) and p["holds"][j] is True for p in paths)
+            cd = c["sel"].to_bytes(4, "big") + concretize(c["segs"], val)
+            sv = dict(shown, valuation=val, observed={"failure_reported": failed, "continues": normal})
+            if other:
+                bad("failing-input", f"L2 {c['sig']} depth {c['depth']}: input {val} ends in an error/stuck path that is not a reported assertion failure", sv, {"defect": "l2-other-path", "sig": c["sig"]})
+            if c["mode"] == "assume":
+                want = prior and (int.from_bytes(cd[4:36], "big") != 0)
+                nontriv = True
+                if failed or normal != want:
+                    bad("failing-input", f"L2 vm.assume at depth {c['depth']}: input {val}: continues={normal}, failure={failed}; the path must continue exactly when the assumed conditions hold ({want})", sv, {"defect": "l2-assume"})
+                continue
+            sp = spec_assert(d, cd)
+            if sp is None:
+                continue
+            nontriv = True
+            want_fail = prior and not sp
+            rep.count("l2_expected", "fail" if want_fail else ("pass" if prior else "excluded-by-assume"))
+            if failed != want_fail:
+                bad("failing-input", f"L2 {c['sig']} at call depth {c['depth']} after vm.assume({c['assume']}): input {val}: failure reported = {failed}, but the relation {'holds' if sp else 'is violated'} and the assumption {'holds' if prior else 'fails'}", sv, {"defect": "l2-wrong-failure-set", "sig": c["sig"]})
+            if prior and sp and not normal:
+                bad("failing-input", f"L2 {c['sig']} at call depth {c['depth']}: passing input {val} is dropped (no continuing path)", sv, {"defect": "l2-dropped-pass", "sig": c["sig"]})
+            if not prior and normal:
+                bad("failing-input", f"L2 {c['sig']} at call depth {c['depth']}: input {val} violates the earlier vm.assume but continues", sv, {"defect": "l2-assume", "sig": c["sig"]})
+        # outcome shape vs the branching model fed with the recorded solver answers
+        if res2 is not None and res2.get(k) is not None:
+            mo = res2[k]
+            outs = [mo[i:i + 4] for i in range(0, len(mo), 4)]
+            m_y = [o for o in outs if o[0] == 1]
+            m_c = [o for o in outs if o[0] == 2]
+            i_y = [p for p in paths if p["flag"]]
+            i_c = [p for p in paths if not p["flag"] and p["error"] is None and not p["stuck"]]
+            ok = len(m_y) == len(i_y) and len(m_c) == len(i_c) and all(o[2] == 1 and o[3] == c["depth"] + 1 for o in m_y)
+            if not ok:
+                bad("broken-tie", f"L2 {c['sig']} depth {c['depth']}: solver answers {im['checks']} -> model outcomes {outs}, implementation paths {paths}", shown)
+        rep.case({"l2": k, "sig": c["sig"], "depth": c["depth"], "assume": c["assume"], "segs": c["segs"], "nvals": len(c["vals"])}, nontrivial=nontriv)
+
+
+def l2_model_calls(l2, impl2):
+    enc = {"unsat": 0, "sat": 1, "unknown": 2}
+    calls, idx = [], {}
+    for k, (c, im) in enumerate(zip(l2, impl2)):
+        if "exc" in im:
+            continue
+        if c["mode"] == "assume":
+            lit_false = all(s[0] == "c" for s in c["segs"]) and int.from_bytes(concretize(c["segs"], {})[:32], "big") == 0
+            if c["assume"] == ["const", 0]:
+                continue
+            idx[k] = len(calls)
+            calls.append(("c13_assume_step", [int(lit_false), c["depth"]]))
+        else:
+            ch = im["checks"]
+            if not ch or c["assume"] == ["const", 0]:
+                continue
+            idx[k] = len(calls)
+            calls.append(("c13_step", [enc[ch[0]], enc[ch[1]] if len(ch) > 1 else 2, c["depth"]]))
+    return calls, idx
+
+
 def run(rep, tier):
+    import time
+
+    t0 = time.time()
+    phases = rep.coverage.setdefault("phase_s", {})
+
+    def lap(name):
+        nonlocal t0
+        phases[name] = round(time.time() - t0, 1)
+        t0 = time.time()
+
     b = common.build_property(PID, TRANSLATORS)
     common.standard_obligations(rep, PID, b)
     exe = None
@@ -596,6 +899,7 @@ def run(rep, tier):
         rep.obligation("extraction of Model/AssertModel.v + Spec/AssertSpec.v entry points + OCaml driver build", exe is not None, "" if exe else log[-800:])
         if exe is None:
             rep.fail("broken-tie", "extracted model driver does not build: " + log[-400:], case={})
+    lap("coq_build_and_driver")
     r = common.rng(PID)
     nbad = [0]
 
@@ -626,6 +930,10 @@ def run(rep, tier):
     with Pool(min(16, os.cpu_count() or 4)) as pool:
         impl = pool.map(impl_l1, cases, chunksize=32)
         impl_s = pool.map(impl_sig, sig_cases, chunksize=8)
+        lap("impl_l1")
+        l2 = gen_l2(tier, r, table)
+        impl2 = pool.map(impl_l2, l2, chunksize=4)
+        lap("impl_l2")
 
     # model calls; a length beyond what Python can index (OverflowError / MemoryError in the real
     # code, malformed calldata only) is outside the model: such evaluations are counted, not compared
@@ -645,7 +953,12 @@ def run(rep, tier):
                 continue
             where["p", i, j] = len(calls)
             calls.append(("c13_run", enc_sig_cd(sc["sig"], bytes.fromhex(p))))
+    calls2, idx2 = l2_model_calls(l2, impl2)
+    n1 = len(calls)
+    calls += calls2
     res = Model(exe).parallel_batch(calls, timeout=300) if exe is not None else None
+    res2 = {k: res[n1 + i] for k, i in idx2.items()} if res is not None else None
+    lap("model")
 
     for i, c in enumerate(cases):
         d = tuple(c["descr"])
@@ -704,6 +1017,8 @@ def run(rep, tier):
         rep.count("signature_strings", "table" if sc["sig"] in {render(d) for d in table.values()} else "variant")
         rep.case({"mk_assert_handler": sc["sig"]}, nontrivial=impl_s[i][0] != [0])
 
+    check_l2(rep, bad, l2, impl2, res2)
+    rep.coverage["l2_runs"] = len(l2)
     rep.coverage["traces_validated_against_impl"] = (len(calls) // 1) if res is not None else 0
     rep.coverage["exhaustive"] = False
     return rep.finish(
@@ -711,7 +1026,7 @@ def run(rep, tier):
         trusted_base=common.TRUSTED_BASE_COMMON,
         assumptions=ASSUMPTIONS,
         partial=PARTIAL,
-        rule="L1 cases = (bound selector, calldata layout of concrete and symbolic chunks, valuations): word operands over sign/width boundaries (all pairs), bytes of lengths 0,1,31,32,33,64 equal / one bit flipped / prefix / trailing zero, arrays of lengths 0-3 equal / one element / length differing, messages incl. invalid UTF-8, truncated and out-of-range offsets; a case is non-trivial when its concretised calldata is a valid ABI encoding for the signature (so that the stated relation is defined); each valuation is one evaluation of the real handler's z3 condition vs the extracted model vs the Python spec. Signature-string cases = mk_assert_handler on table and mutated signatures compared behaviourally on 16 probe calldatas",
+        rule="L1 cases = (bound selector, calldata layout of concrete and symbolic chunks, valuations): word operands over sign/width boundaries (all pairs), bytes of lengths 0,1,31,32,33,64 equal / one bit flipped / prefix / trailing zero, arrays of lengths 0-3 equal / one element / length differing, messages incl. invalid UTF-8, truncated and out-of-range offsets; a case is non-trivial when its concretised calldata is a valid ABI encoding for the signature (so that the stated relation is defined); each valuation is one evaluation of the real handler's z3 condition vs the extracted model vs the Python spec. Signature-string cases = mk_assert_handler on table and mutated signatures compared behaviourally on 16 probe calldatas. L2 cases = (call depth 0..3, a vm.assume prefix [const / x<c / signed x<c / x!=0], a cheatcode call with concrete or symbolic operands, valuations): SEVM.run on a chain of forwarding contracts; per valuation the set of yielded paths whose constraints hold is compared with the spec (failure reported iff assumption holds and relation false; passing inputs continue; inputs excluded by the assumption have no path), and the outcome shape with the branching model fed with the recorded solver answers; every bound selector is also run once passing and once failing at a random depth",
     )
 
 
